@@ -96,13 +96,26 @@ Definition round53_nat (n : Z) : Z :=
 Definition round53 (i : Z) : Z := if i <? 0 then - round53_nat (- i) else round53_nat i.
 
 Definition scale1075 : Z := 2 ^ 1075.
-(** [(i as f64).partial_cmp(&x)] *)
+(** [compare_i64_f64] (fix c5e300e): an i64 against an f64, exactly -- NaN is incomparable, values
+    at or beyond +-2^63 (the infinities too) are above / below every i64, otherwise the integral
+    part is compared and the fraction decides a tie.  That is the comparison of the exact values. *)
 Definition cmp_int_f64 (i x : Z) : option comparison :=
+  match f64_num x with
+  | Some y => Some (i * scale1075 ?= y)
+  | None => None
+  end.
+Definition cmp_f64_int (x i : Z) : option comparison :=
+  match f64_num x with
+  | Some y => Some (y ?= i * scale1075)
+  | None => None
+  end.
+(** before c5e300e: [(i as f64).partial_cmp(&x)], the integer rounded to 53 bits first *)
+Definition cmp_int_f64_pre (i x : Z) : option comparison :=
   match f64_num x with
   | Some y => Some (round53 i * scale1075 ?= y)
   | None => None
   end.
-Definition cmp_f64_int (x i : Z) : option comparison :=
+Definition cmp_f64_int_pre (x i : Z) : option comparison :=
   match f64_num x with
   | Some y => Some (y ?= round53 i * scale1075)
   | None => None
@@ -161,6 +174,17 @@ Definition cmp_zone (a b : value) : option comparison :=
   | VBool x, VBool y => Some (bool_cmp x y)
   | VInt x, VFloat y => cmp_int_f64 x y
   | VFloat x, VInt y => cmp_f64_int x y
+  | _, _ => None
+  end.
+(** the same before c5e300e *)
+Definition cmp_zone_pre (a b : value) : option comparison :=
+  match a, b with
+  | VInt x, VInt y => Some (x ?= y)
+  | VFloat x, VFloat y => f64_cmp x y
+  | VStr x, VStr y => Some (lex_cmp x y)
+  | VBool x, VBool y => Some (bool_cmp x y)
+  | VInt x, VFloat y => cmp_int_f64_pre x y
+  | VFloat x, VInt y => cmp_f64_int_pre x y
   | _, _ => None
   end.
 
